@@ -178,6 +178,18 @@ def rule_split(ctx):
     ctx.ob("Collocator.collocate_filesets.match", okm, "%s" % (norm(m.value) if m else None), "matches = primary.match(secondary, start, end, max_interval) over the requested period",
            node=m or f.node, func=f)
     splits = calls_in(f.node, "array_split")
+    if not splits:
+        # recognised-wrong: chunks cut as equal slices of length len(matches) // n - the remainder len(matches) % n goes to no worker
+        mname0 = m.targets[0].id if m is not None else "matches"
+        for st_ in flow.stmts:
+            if isinstance(st_, ast.Assign) and isinstance(st_.value, (ast.ListComp, ast.GeneratorExp)) and len(st_.value.generators) == 1 \
+                    and isinstance(st_.value.elt, ast.Subscript) and isinstance(st_.value.elt.slice, ast.Slice) and str(norm(st_.value.elt.value)) == mname0:
+                step = flow.resolve(st_.value.elt.slice.upper, at=st_, depth=3, stop=(mname0, "processes")) if st_.value.elt.slice.upper is not None else None
+                if step is not None and any(isinstance(n_, ast.BinOp) and isinstance(n_.op, ast.FloorDiv) and "len(%s)" % mname0 in str(norm(n_.left)) for n_ in ast.walk(step)):
+                    ctx.ob("Collocator.collocate_filesets.chunks", False, "%s" % str(norm(st_))[:160],
+                           "np.array_split(all matches, n): slices of the floored length len(matches) // n leave the last len(matches) %% n matches to no worker",
+                           node=st_, func=f, witness={"matches": 5, "processes": 2, "distributed": 4})
+                    return
     if len(splits) != 1 or len(splits[0].args) < 2:
         raise AnalysisError("collocate_filesets: the array_split of the matches was not found")
     sp_ = splits[0]
